@@ -4,6 +4,8 @@
 // store of an append (the only code between allocation and publication), (b) directed two-appender
 // interleavings in which one appender is parked inside its page store while the other publishes, and
 // (c) crash histories in which the queue directory is imaged after every individual store of an append.
+// Zero-length messages (no header: identified by their sequence) are part of every family's traffic, and the
+// "emptytail" family (emptytail.go) makes them the last appends before the queue directory is opened again.
 // The oracle checks payload<->sequence bijection, density, real-time order, byte equality across
 // reopen, that a later append never alters an earlier message, and all-or-nothing on crash images.
 package main
@@ -49,7 +51,10 @@ func main() {
 		"(crash) one image of the queue directory taken after an individual store (payload bytes, index fields, appended-sequence) of an append; " +
 		"(gcroll) one round of GC() releasing acknowledged index pages while the appender rolls over to a new index page, read back in the same process and after reopen; " +
 		"(putfault) one history in which one page-factory operation (acquisition of the next index / data page at a roll-over, sync of the page left, or one of the operations of NewQueue) fails once or twice, " +
-		"the failed Put / NewQueue is repeated, appends go on and every retained sequence is read back live and after reopen. " +
+		"the failed Put / NewQueue is repeated, appends go on and every retained sequence is read back live and after reopen; " +
+		"(emptytail) one history in which one to three zero-length messages are the last appends before the queue directory is opened again (after Close or without it), on data page 0, on data page 1 after a roll-over, " +
+		"with data page 0 released by GC, at the last byte of a data page, or with nothing but empty messages retained; non-empty appends follow and every retained sequence is read back after each. " +
+		"Zero-length messages (identified by sequence, not by header) are also part of the stress, interleave, crash, gcroll, backreset and putfault traffic, in the middle of the log and as the last append before a reopen / on a crash image. " +
 		"Non-trivial = stress/interleave run in which a Put was called while another appender was inside its page store (overlap observed at the page wrapper), " +
 		"or an image strictly inside an append, or a reopen placed at a page boundary, or a fault history whose planned operation really failed; distinct by (kind, index, image hash / round).")
 	c.Assume("process-kill fault model: dirty MAP_SHARED pages survive; torn 8-byte stores are not modelled")
@@ -83,6 +88,10 @@ func main() {
 	nFault := c.Pick(8, 32) // transient page faults: a Put / NewQueue that fails once, is repeated, then everything is read back
 	for i := 0; i < nFault; i++ {
 		jobs = append(jobs, job{"putfault", i, false})
+	}
+	nEmpty := c.Pick(12, 96) // empty messages as the last appends before the queue is opened again
+	for i := 0; i < nEmpty; i++ {
+		jobs = append(jobs, job{"emptytail", i, false})
 	}
 	scratch := c.Scratch()
 	results := make([]*caseResult, len(jobs))
@@ -168,6 +177,26 @@ func main() {
 		}
 		if n := c.Counter("putfault.histories_where_the_planned_fault_was_not_reached"); n > 0 {
 			c.Inconclusive("fault family: %d histories never reached the operation that was planned to fail", n)
+		}
+	}
+	if c.Violations() == 0 {
+		// empty messages decide nothing unless the situations were really observed
+		for _, name := range []string{
+			"empty.empty_messages_appended",
+			"empty.empty_messages_read_back_under_their_sequence",
+			"empty.opens_with_an_empty_message_at_the_tail.close-reopen",
+			"empty.opens_with_an_empty_message_at_the_tail.open-without-close",
+			"empty.appends_right_after_an_open_behind_an_empty_message",
+			"empty.crash_images_whose_last_appended_message_is_empty",
+			"emptytail.histories_with_the_write_position_behind_a_data_page_roll_over",
+			"emptytail.histories_with_data_page_0_released_by_gc",
+		} {
+			if c.Counter(name) == 0 {
+				c.Inconclusive("empty messages: %s = 0 (the situation was never observed)", name)
+			}
+		}
+		if n := c.Counter("emptytail.histories_where_an_open_was_not_behind_an_empty_message"); n > 0 {
+			c.Inconclusive("empty messages: %d emptytail histories opened the queue with something else than an empty message at the tail", n)
 		}
 	}
 	c.Finish()
